@@ -29,6 +29,18 @@ for d in sorted(glob.glob(os.path.join(ROOT, "seeded", "C*", ""))):
     except Exception:
         continue
     seeds.append(f"| {os.path.basename(d.rstrip('/'))} | {m.get('property', '')} | {esc(str(m.get('summary', '')))[:300]} | {esc(str(m.get('needs', '')))[:300]} |")
+rp = os.path.join(V, "seeded", "retired", "README.md") if "V" in dir() else "/verif/seeded/retired/README.md"
+if os.path.exists(rp):
+    seeds.append("")
+    seeds.append("Retired seeded changes (no longer property-breaking or no longer applicable on the current tree; `seeded/retired/`):")
+    seeds.append("")
+    seeds.append(open(rp).read().strip())
+bp = "/verif/seeded/benign/README.md"
+if os.path.exists(bp):
+    seeds.append("")
+    seeds.append("Behaviour-preserving edits that every check must stay silent on (`seeded/benign/`):")
+    seeds.append("")
+    seeds.append(open(bp).read().strip())
 blocks = {"fixes": fixes, "findings": findings, "seeds": "\n".join(seeds)}
 p = os.path.join(ROOT, "DESIGN.md")
 s = open(p).read()
